@@ -141,7 +141,7 @@ def gen_item_C09(rng, idx, tier):
         ops.append(ph.gen_prune_op(rng, case, allow_crits=False))
     return {'mode': 'roundtrip', 'case': case, 'ops': ops, 'fmt': rng.choice(['fits', 'hdf5']),
             'explicit': rng.random() < 0.4, 'path': rng.random() < 0.4, 'wcs': rng.random() < 0.4 and len(case['shape']) in (2, 3),
-            'upper': rng.random() < 0.2}
+            'upper': rng.random() < 0.2, 'pre': rng.choice(['none', 'none', 'empty', 'junk', 'other-format', 'same-format'])}
 
 
 def eval_C09(item):
@@ -249,6 +249,20 @@ def eval_C09(item):
     path = tmpfile(ext)
     target = pathlib.Path(path) if item['path'] else path
     kw = {'format': item['fmt']} if item['explicit'] else {}
+    # the target may already exist (placeholder, junk, a file of the other or the same format): when
+    # writing, the extension decides
+    pre = item.get('pre', 'none')
+    if pre == 'empty':
+        open(path, 'wb').close()
+    elif pre == 'junk':
+        with open(path, 'wb') as f_:
+            f_.write(b'not a dendrogram' * 10)
+    elif pre in ('other-format', 'same-format'):
+        small = Dendrogram.compute(np.array([[1., 2.], [3., 1.]]))
+        other = {'fits': 'hdf5', 'hdf5': 'fits'}[item['fmt']] if pre == 'other-format' else item['fmt']
+        with warnings.catch_warnings():
+            warnings.simplefilter('ignore')
+            small.save_to(path, format=other)
     try:
         with warnings.catch_warnings():
             warnings.simplefilter('ignore')
@@ -298,7 +312,7 @@ def eval_C09(item):
     ctx = preds.Ctx(case, d)
     res['pred'] += ['loaded: ' + x for x in preds.pred_C02(ctx, d2, o2, fresh=False)]
     res['pred'] += ['loaded: ' + x for x in preds.pred_C06(ctx, d2, o2)]
-    res['tags'] += ['fmt=' + item['fmt'], 'pruned=%d' % len(item['ops']), 'wcs=%s' % item['wcs'], 'explicit=%s' % item['explicit'],
+    res['tags'] += ['pre=' + item.get('pre', 'none'), 'fmt=' + item['fmt'], 'pruned=%d' % len(item['ops']), 'wcs=%s' % item['wcs'], 'explicit=%s' % item['explicit'],
                     'path=%s' % item['path'], 'dtype=' + case['dtype'], 'ndim=%d' % len(case['shape'])]
     res['nontrivial'] = pc.nontrivial(steps[-1].mobs)
     return res
